@@ -288,6 +288,73 @@ def remote_failure_section(rng, thorough, res, count):
     return n
 
 
+def write_limit_section(rng, thorough, res, count):
+    """C04, pull and local: the DESTINATION refuses bytes (a quota or a full disk, stood in for by `ulimit -f`: a write that would
+    grow a file past the limit fails with EFBIG once SIGXFSZ is ignored). Whatever chunk of whatever file the refusal hits — the
+    last chunk of a file included, whose result only a flush collects — the run may exit 0 only if every source file is
+    byte-identical at the destination (seed C04-M: the pull path waited for its last write with `sync_all`, which parks that
+    write's error)."""
+    n = 0
+    sizes = [300, 40_000, 20_000, 10, 65_536, 9_000]
+    names = ["a.txt", "big.bin", "d/c.bin", "d/s.txt", "d/e/p.bin", "m.bin"]
+    for direction in ("pull", "local"):
+        for limit_kib in ((4, 16, 48) if thorough else (16, 48)):
+            src = {nm: bytes((7 * k + j) % 251 for j in range(sz)) for k, (nm, sz) in enumerate(zip(names, sizes))}
+            for jobs in (["--jobs", "1"], ["--jobs", "3"]):
+                with Sandbox("C04wl") as sb:
+                    sroot = os.path.join(sb.home, "rsrc") if direction == "pull" else sb.path("src")
+                    droot = sb.path("dst")
+                    sb.write_tree(sroot, src); os.makedirs(droot)
+                    if rng.coin(1, 2):
+                        sb.write_tree(droot, {"big.bin": b"old", "d/c.bin": b"old c"})
+                    prefix = ["bash", "-c", f"trap '' XFSZ; ulimit -f {limit_kib}; exec \"$@\"", "sh"]
+                    rc, out, err = sb.run(["sync", "-r"] + jobs + [f"{HOST}:rsrc" if direction == "pull" else sroot, droot], timeout=120, prefix=prefix)
+                    out, err = out.decode("utf-8", "replace"), err.decode("utf-8", "replace")
+                    got = sb.read_tree(droot)
+                    n += 1
+                    count(f"destination-write-limit/{direction}")
+                    wrong = sorted(nm for nm in names if got.get(nm) != src[nm])
+                    over = sorted(nm for nm, sz in zip(names, sizes) if sz > limit_kib * 1024)
+                    rep = {"direction": direction, "flags": jobs, "file_size_limit_kib": limit_kib, "files_over_the_limit": over, "rc": rc,
+                           "stdout": out[-300:], "stderr": err[-400:], "not_delivered": wrong,
+                           "destination_sizes": {nm: (len(got[nm]) if nm in got else None) for nm in wrong}}
+                    if rc == 0 and wrong:
+                        res["violations"].append(("exit-0-but-planned-file-not-delivered", f"{direction}: the destination refused writes beyond {limit_kib} KiB; copia exited 0 although {wrong} do not hold the source's bytes", rep))
+                    if rc != 0 and not err.strip() and "failed" not in out.lower():
+                        res["violations"].append(("failed-without-report", f"the run failed (rc {rc}) at a destination write limit without reporting an error", rep))
+                    if rc == 0 and over and not wrong:
+                        count("destination-write-limit/limit-not-hit")
+    return n
+
+
+def big_listing_section(res, count):
+    """C14 / C19 / C04: a remote listing far larger than one pipe read (≈ 300 KiB), whose names consist almost entirely of 4-byte
+    UTF-8 characters: wherever the listing is cut into reads, a cut falls inside a character. Both trees hold the same files with the
+    same sizes and mtimes, so the plan of a push and of a pull must be empty — a listing decoded read by read (seed C14-M: lossy
+    UTF-8 decoding per 64 KiB chunk) turns the names at the cuts into other names: phantom files, re-sent on every run."""
+    n_files = 1100
+    names = []
+    for i in range(n_files):
+        stem = "".join(chr(0x1F300 + (i * 7 + j * 13) % 700) for j in range(52))
+        names.append((f"d{i % 3}/" if i % 4 == 0 else "") + stem + f"{i:04d}")
+    tree = {nm: (b"%05d" % i, 1_650_000_000 + i) for i, nm in enumerate(names)}
+    for direction in ("push", "pull"):
+        with Sandbox("C14big") as sb:
+            loc, rem = sb.path("loc"), os.path.join(sb.home, "rem")
+            sb.write_tree(loc, tree); sb.write_tree(rem, tree)
+            args = ["sync", "-r", "--dry-run", "--delete"] + ([loc, f"{HOST}:rem"] if direction == "push" else [f"{HOST}:rem", loc])
+            rc, out, err = sb.run(args, timeout=180)
+            out, err = out.decode("utf-8", "replace"), err.decode("utf-8", "replace")
+            m = re.search(r"Plan: (\d+) to transfer, (\d+) unchanged \(skipped\), (\d+) to delete", err + out)
+            count(f"big-multibyte-listing/{direction}")
+            rep = {"direction": direction, "files": n_files, "listing_bytes_about": sum(len(nm.encode()) + 30 for nm in names), "rc": rc,
+                   "plan": m.group(0) if m else None, "stderr": err[-300:], "stdout": out[:300]}
+            if rc != 0 or not m:
+                res["violations"].append(("large-listing-run-failed", f"{direction} --dry-run over two identical trees of {n_files} files failed (rc {rc})", rep))
+            elif (int(m.group(1)), int(m.group(2)), int(m.group(3))) != (0, n_files, 0):
+                res["violations"].append(("unchanged-file-planned", f"{direction}: both trees hold the same {n_files} files (same size and mtime), yet the plan is `{m.group(0)}`: names of the remote listing were misread", rep))
+
+
 def deep_tree_section(rng, res, count):
     """C04 "any nesting": a source tree nested beyond PATH_MAX (built and read back through directory handles). The run may exit 0
     only if EVERY source file arrived; if it cannot handle the depth it must fail and say so (D22: the walker classified entries
@@ -488,6 +555,107 @@ def hardlinked_destination_section(res, count):
             res["violations"].append(("second-run-not-a-no-op", f"destination names hard-linked to one file: after a successful run the same command planned {plans}", rep))
         if rc1 == 0 and mt != {"a.bin": 1_650_000_000, "sub/b.bin": 1_600_000_000}:
             res["violations"].append(("delivered-file-without-source-mtime", f"after the runs the destination mtimes are {mt}", rep))
+
+
+def walk_section(rng, thorough, rundir, model_run, res, count):
+    """`transfer.rs::discover_local_files` observed through the real CLI against the tree world of `Model/WalkTree` (the world the
+    theorems `C06.source_walk_*` / `C04.source_walk_reports_every_failure` quantify over): random trees of regular files, symlinks
+    to regular files, other symlinks (dangling, to a directory, to a fifo), fifos and nested directories, plus trees with one
+    directory beyond PATH_MAX (`read_dir` fails there: the model's unreadable directory). `sync -r --dry-run TREE EMPTY` prints one
+    `send` line per listed file, in plan order; the model answers with the sorted files of the tree, or FAIL for an unclean tree."""
+    NAMES = ["a", "b", "A", "a.b", "a b", "é", "z", "d", "-x", "0", "ab", "a-b", "日", "B", "a.", ".h"]
+    def gen(depth):
+        ents, used = [], set()
+        for _ in range(rng.range(2, 8) if depth == 0 else rng.range(0, 5)):
+            nm = rng.pick(NAMES)
+            if nm in used:
+                continue
+            used.add(nm)
+            k = rng.range(0, 10)
+            if k < 4 or (k >= 7 and depth >= 3):
+                ents.append((nm, "f"))
+            elif k == 4:
+                ents.append((nm, "l"))
+            elif k == 5:
+                ents.append((nm, "x"))
+            elif k == 6:
+                ents.append((nm, "o"))
+            else:
+                ents.append((nm, gen(depth + 1)))
+        return ents
+    def build(d, ents, targets, toks):
+        for nm, k in ents:
+            p = os.path.join(d, nm)
+            if k == "f":
+                open(p, "wb").write(b"x" * rng.range(0, 9))
+            elif k == "l":
+                sib = [n2 for n2, k2 in ents if k2 == "f" and n2 != nm]
+                os.symlink(rng.pick(sib) if sib and rng.coin(1, 2) else targets["file"], p)
+            elif k == "x":
+                os.symlink(rng.pick([targets["missing"], targets["dir"], targets["fifo"], "no-such-sibling"]), p)
+            elif k == "o":
+                os.mkfifo(p)
+            if isinstance(k, list):
+                os.mkdir(p)
+                toks.append("D1:" + hexs(nm))
+                build(p, k, targets, toks)
+                toks.append(")")
+            else:
+                toks.append(f"{k}:" + hexs(nm))
+    ops, impl = [], []
+    ntrees = 60 if thorough else 16
+    for i in range(ntrees + 2):
+        with Sandbox("C04walk") as sb:
+            src, dst, tg = sb.path("s"), sb.path("d"), sb.path("targets")
+            os.makedirs(src); os.makedirs(dst); os.makedirs(os.path.join(tg, "dir"))
+            open(os.path.join(tg, "file"), "wb").write(b"target")
+            open(os.path.join(tg, "dir", "inner"), "wb").write(b"inner")
+            os.mkfifo(os.path.join(tg, "fifo"))
+            targets = {"file": os.path.join(tg, "file"), "dir": os.path.join(tg, "dir"), "fifo": os.path.join(tg, "fifo"), "missing": os.path.join(tg, "missing")}
+            toks = []
+            if i < ntrees:
+                build(src, gen(0), targets, toks)
+                count("walk/clean-tree")
+            else:
+                # one branch nested until its directory's path no longer fits PATH_MAX: `read_dir` fails on that directory
+                open(os.path.join(src, "top"), "wb").write(b"t"); toks.append("f:" + hexs("top"))
+                comp, cwd0, rel, closes = "n" * (200 + 17 * (i - ntrees)), os.getcwd(), src, 0
+                try:
+                    os.chdir(src)
+                    while True:
+                        os.mkdir(comp); os.chdir(comp); rel = rel + "/" + comp; closes += 1
+                        fits = len(rel.encode()) <= 4095
+                        toks.append(("D1:" if fits else "D0:") + hexs(comp))
+                        open("f", "wb").write(b"f"); toks.append("f:" + hexs("f"))
+                        if not fits:
+                            break
+                finally:
+                    os.chdir(cwd0)
+                toks += [")"] * closes
+                count("walk/tree-beyond-PATH_MAX")
+            rc, out, err = sb.run(["sync", "-r", "--dry-run", src, dst], timeout=120)
+            if rc != 0:
+                im = "FAIL"
+            else:
+                sent = [ln[7:] for ln in out.decode("utf-8", "surrogateescape").split("\n") if ln.startswith("send   ")]
+                im = ",".join(hexs(s_.encode("utf-8", "surrogateescape")) for s_ in sent) if sent else "-"
+            ops.append("walk " + (",".join(toks) if toks else "-")); impl.append(im)
+            if i >= ntrees:
+                shutil.rmtree(src, ignore_errors=True)
+    path = os.path.join(rundir, "walk", "ops.txt")
+    os.makedirs(os.path.dirname(path), exist_ok=True)
+    with open(path, "w") as f:
+        f.write("\n".join(ops) + "\n")
+    model = model_run(path)
+    dis = 0
+    for q, im, mo in zip(ops, impl, model + [None] * (len(ops) - len(model))):
+        if im != mo:
+            dis += 1
+            if len(res.setdefault("disagreements", [])) < 10:
+                res["disagreements"].append({"query": q[:600], "impl": im[:600], "model": (mo or "")[:600]})
+    if dis:
+        res["broken"].append(f"C04/corr/walk: the real walker (through `sync -r --dry-run`) and Model/WalkTree disagree on {dis} of {len(ops)} trees")
+    return len(ops), dis
 
 
 def location_section(rng, thorough, rundir, model_run, res, count):
@@ -749,15 +917,20 @@ def run(pid, tier, seed, rundir, model_run):
         ndis += qdis
         nl, ldis = location_section(rng, thorough, rundir, model_run, res, count)
         ndis += ldis
+        nw, wdis = walk_section(rng, thorough, rundir, model_run, res, count)
+        ndis += wdis
         remote_failure_section(rng, thorough, res, count)
         deep_tree_section(rng, res, count)
         unlistable_dir_section(rng, res, count)
         many_jobs_section(rng, res, count)
         split_listing_section(rng, thorough, res, count)
+        write_limit_section(rng, thorough, res, count)
+        big_listing_section(res, count)
     if pid == "C15":
         remote_failure_section(rng, thorough, res, count)      # (for its excluded-file-vs-directory part: excludes protect)
     if pid == "C14":
         symlink_second_run_section(res, count)
+        big_listing_section(res, count)
         hardlinked_destination_section(res, count)
     if pid == "C19":
         split_listing_section(rng, thorough, res, count)       # the listing parser seen through the CLI: pieces, pauses
